@@ -111,4 +111,17 @@ CHECKS = {
        "as failures exposing the panic value. MCEffect proves the definitional semantics equal to that oracle.",
   note="future.Apply/Apply2 panics are checked in C06. Operands are values (evaluated by the caller); only callbacks can be skipped.",
   technique="exhaustive failure-subset enumeration per arity on the real packages, validated by TLC against the first-failure oracle with a call log"),
+ "C06": dict(
+  text="FutureSpec.tla: the value of an expression is its Try-evaluation over the sources' results; PEval is that evaluation while "
+       "sources are pending (left to right, 'blocked' when it needs an incomplete source). TLC (MCFuture) checks for 586 expressions "
+       "x 27 result assignments x all completion orders: single assignment, never completed before PEval is settled, final value "
+       "independent of the order, completion under fairness. The expression space is exported and built with every fitting function "
+       "of the real future package (Map/Lift/Method*/With/Ap/Map2/Zip*/Sequence*/LiftA2..9/LiftM2..9/FlatMap/LiftM/Flatten/"
+       "TransformWith/Compose2..5/Traverse*/FoldFuture/ApFunc/ApplicativeN/ChainN with ApFuture/ApFutureFunc/Recover*/Or*/Apply/"
+       "Apply2/Func* incl. panics); the cooperative scheduler owns every interleaving (default executor -> scheduler tasks, the "
+       "construction itself is a scheduled thread): exhaustive task-level DFS and random atomic-level schedules. After every "
+       "scheduling step the derived future is observed; TLC (TraceFuture) rejects early, wrong, changing or missing completions.",
+  note="Task-level exploration relies on C05 (each promise operation is linearizable). User-supplied executors are exercised in C05; "
+       "here the default executor is redirected to the scheduler. Await/timeouts are not covered.",
+  technique="TLC model checking of partial evaluation semantics; exhaustive/random schedule exploration of the real package validated by TLC"),
 }
